@@ -117,7 +117,7 @@ pub fn utxos_for(sc: &Scenario) -> BTreeMap<String, Vec<Utxo>> {
     }
     if let Some(c) = &sc.prog.collateral {
         let u = match &c.r#ref {
-            Some(RefE::Lit(t, i)) => Utxo { r#ref: UtxoRef { txid: t.clone(), index: *i }, address: sender.clone(), assets: lov(6_000_000), datum: None, script: None },
+            Some(RefE::Lit(t, i)) => Utxo { r#ref: UtxoRef { txid: t.clone(), index: *i as u32 }, address: sender.clone(), assets: lov(6_000_000), datum: None, script: None },
             _ => mk(0x71, 0, &sender, lov(6_000_000)),
         };
         m.insert("collateral".to_string(), vec![u]);
@@ -393,7 +393,7 @@ impl<'a> Ev<'a> {
 
     fn rf(&self, e: &RefE) -> (Vec<u8>, u64) {
         match e {
-            RefE::Lit(t, i) => (t.clone(), *i as u64),
+            RefE::Lit(t, i) => (t.clone(), *i),
             RefE::Param(_) => {
                 let r = ref_param();
                 (r.txid, r.index as u64)
@@ -497,6 +497,9 @@ fn denote_inner(ev: &Ev) -> R<Expected> {
         });
     }
     for (_, r) in &p.references {
+        if ev.rf(r).1 > u32::MAX as u64 {
+            return Err(Denotation::MustFail("reference output index beyond 32 bits".into()));
+        }
         x.reference_inputs.insert(ev.rf(r));
     }
     for (from, amount) in &p.withdrawals {
